@@ -16,7 +16,7 @@
     binary64 instance: the model of [strconv.ParseFloat]). *)
 From HP Require Import Base.Bytes Base.Utf8 Base.Num Model.Scanner Model.Parser Model.Syntax.
 From HP Require Import Proofs.ParserBytes Proofs.ParserScan Proofs.ParserClassify Proofs.ParserRoundtrip
-  Proofs.ParserCorollaries.
+  Proofs.ParserCorollaries Proofs.ParserConcat.
 Open Scope N_scope.
 
 (** the whole property in one equation: parsing the rendering of a well-formed
@@ -108,3 +108,36 @@ Theorem error_line_numbers_physical :
          In (EErr (err_at (N.of_nat i) it)) (events NM (render f)).
 Proof. exact ParserCorollaries.error_line_numbers_physical. Qed.
 Print Assumptions error_line_numbers_physical.
+
+(** the scanner-side meaning of [short_lines]: exactly the well-formed files the
+    scanner reads to the end (no ErrTooLong) *)
+Theorem short_lines_exact :
+  forall (NM : Num) (f : file),
+    wf_file NM f = true ->
+    (short_lines f <-> snd (scan (render f) NoFault) = ScanEOF).
+Proof. exact ParserScan.short_lines_exact. Qed.
+Print Assumptions short_lines_exact.
+
+(** stretch, used by C12 – parsing a concatenation, for arbitrary bytes: the
+    first part ends in LF (or is empty), no line is too long, and either the
+    first part leaves no record open or the second part begins (after lines that
+    are always skipped) with a heading.  Error line numbers of the second part
+    are shifted by the number of lines of the first. *)
+Theorem parse_concat :
+  forall (NM : Num) (d1 d2 : bytes),
+    ends_lf d1 ->
+    snd (scan (d1 ++ d2) NoFault) = ScanEOF ->
+    snd (parse_lines NM (lines_of d1)) = None \/ heading_first (lines_of d2) = true ->
+    events NM (d1 ++ d2)
+    = events NM d1 ++ map (shift_ev NM (lengthN (lines_of d1))) (events NM d2).
+Proof. exact ParserConcat.parse_concat. Qed.
+Print Assumptions parse_concat.
+
+Theorem parse_concat_wf_no_bad :
+  forall (NM : Num) (f1 f2 : file),
+    wf_file NM f1 = true -> short_lines f1 -> f_final_newline f1 = true ->
+    wf_file NM f2 = true -> short_lines f2 -> no_bad_items f2 ->
+    heading_first_items (map fst (f_items f2)) = true ->
+    events NM (render f1 ++ render f2) = events NM (render f1) ++ events NM (render f2).
+Proof. exact ParserConcat.parse_concat_wf_no_bad. Qed.
+Print Assumptions parse_concat_wf_no_bad.
